@@ -159,6 +159,8 @@ CHECKS = {
 }
 
 PENDING = {}
+with open(os.path.join(VERIF, 'mc', 'manifest_notes.json')) as _f:
+    NOTES = json.load(_f)
 
 
 def build():
@@ -170,6 +172,7 @@ def build():
         pid = p['id']
         if pid in CHECKS:
             eng, tech, text, note, ref = CHECKS[pid]
+            note = note + ' ' + NOTES.get(pid, '')
             checks.append({
                 'property_id': pid,
                 'quick_cmd': f'./check {pid} --tier quick',
